@@ -31,11 +31,33 @@ import sys
 import time
 
 VERIF = os.path.dirname(os.path.dirname(os.path.abspath(__file__)))
-REPO = "/repo"
+REPO = os.environ.get("VERIF_REPO", "/repo").rstrip("/")
 CACHE = os.path.join(VERIF, ".cache")
 LEAN = os.path.join(VERIF, "lean")
-HARNESS_DIR = os.path.join(VERIF, "harness")
-HARNESS_BIN = os.path.join(CACHE, "target", "debug", "rsass-verif")
+if REPO == "/repo":
+    HARNESS_DIR = os.path.join(VERIF, "harness")
+    HARNESS_BIN = os.path.join(CACHE, "target", "debug", "rsass-verif")
+    OUT = VERIF
+else:
+    # Self-test mode: run the same checks against a scratch copy/worktree of kaj/rsass
+    # (VERIF_REPO=/tmp/wt ./check Cxx).  Uses its own harness copy, target dir, evidence
+    # and replay directories so that the registered checks against /repo are not disturbed.
+    _tag = hashlib.sha1(REPO.encode()).hexdigest()[:8]
+    OUT = os.path.join(CACHE, "alt-" + _tag)
+    HARNESS_DIR = os.path.join(OUT, "harness")
+    HARNESS_BIN = os.path.join(OUT, "target", "debug", "rsass-verif")
+
+
+def _prepare_alt_harness():
+    src = os.path.join(VERIF, "harness")
+    os.makedirs(os.path.join(HARNESS_DIR, ".cargo"), exist_ok=True)
+    subprocess.run(["rsync", "-a", "--delete", "--exclude", ".cargo", "--exclude", "Cargo.lock", "--exclude", "Cargo.toml",
+                    src + "/", HARNESS_DIR + "/"], check=True)
+    toml = open(os.path.join(src, "Cargo.toml")).read().replace('"/repo/rsass"', '"' + REPO + '/rsass"')
+    cfg = open(os.path.join(src, ".cargo", "config.toml")).read().replace("/verif/.cache/target", os.path.join(OUT, "target"))
+    for path, content in ((os.path.join(HARNESS_DIR, "Cargo.toml"), toml), (os.path.join(HARNESS_DIR, ".cargo", "config.toml"), cfg)):
+        if not os.path.exists(path) or open(path).read() != content:
+            open(path, "w").write(content)
 ALLOWED_AXIOMS = {"propext", "Classical.choice", "Quot.sound"}
 FORBIDDEN = re.compile(
     r"\bsorry\b|\badmit\b|^\s*axiom\s|native_decide|bv_decide|implemented_by|\bunsafe\s|maxHeartbeats\s+0\b|\bextern\b"
@@ -136,10 +158,15 @@ def env_offline():
 
 def build_harness(log):
     """B1: build the harness against /repo's current working tree."""
+    if REPO != "/repo":
+        _prepare_alt_harness()
     lockfile = os.path.join(HARNESS_DIR, "Cargo.lock")
     if not os.path.exists(lockfile):
-        subprocess.run(["cp", os.path.join(REPO, "Cargo.lock"), lockfile], check=True)
-    with lock("cargo"):
+        src = os.path.join(REPO, "Cargo.lock")
+        if not os.path.exists(src):  # Cargo.lock is not tracked upstream: scratch worktrees lack it
+            src = os.path.join(VERIF, "harness", "Cargo.lock")
+        subprocess.run(["cp", src, lockfile], check=True)
+    with lock("cargo" if REPO == "/repo" else "cargo-" + os.path.basename(OUT)):
         t = time.time()
         p = subprocess.run(
             ["cargo", "build", "--offline"], cwd=HARNESS_DIR, env=env_offline(),
@@ -445,7 +472,7 @@ def run_check(prop, tier, seed, replay=None):
     pid = prop.ID
     ctx = Ctx(pid, tier, seed)
     log = ctx.log
-    evidence_path = os.path.join(VERIF, "evidence", pid + ".json")
+    evidence_path = os.path.join(OUT, "evidence", pid + ".json")
     obligations_broken = []
 
     # B1
@@ -506,8 +533,14 @@ def run_check(prop, tier, seed, replay=None):
         fail = [r for r in res if r["v"].fails is not None]
         # a failure is explained by a known finding when the as-is model (with the live
         # deviation flags) reproduces the implementation's result
-        new = [r for r in fail if not (r["v"].corr_ok and quirks)]
-        explained = [r for r in fail if r["v"].corr_ok and quirks]
+        # (the model must have an opinion, reproduce the implementation, and differ from spec)
+        def is_explained(r):
+            if hasattr(prop, "explained"):
+                return bool(prop.explained(r["case"], r, live))
+            return bool(r["v"].corr_ok and quirks and all(a is not None for a in r["asis"])
+                        and r["asis"] != r["spec"])
+        new = [r for r in fail if not is_explained(r)]
+        explained = [r for r in fail if is_explained(r)]
         return mism, fail, new, explained
 
     mism, fail, new, explained = classify(res)
@@ -556,7 +589,7 @@ def run_check(prop, tier, seed, replay=None):
             try:
                 def still_fails(c2):
                     rr = evaluate(prop, [c2], quirks)[0]
-                    return rr["v"].fails is not None and not (rr["v"].corr_ok and quirks)
+                    return rr["v"].fails is not None and rr in classify([rr])[2]
                 c2 = prop.shrink(r["case"], still_fails)
                 if c2 is not None:
                     r = evaluate(prop, [c2], quirks)[0]
@@ -564,7 +597,7 @@ def run_check(prop, tier, seed, replay=None):
                 log["shrink_error"] = repr(e)
         d = describe(r)
         h = hashlib.sha1(r["case"].key().encode()).hexdigest()[:10]
-        replay_path = os.path.join(VERIF, "replays", f"{pid}-{h}.json")
+        replay_path = os.path.join(OUT, "replays", f"{pid}-{h}.json")
         write_json(replay_path, {
             "property": pid, "kind": "failing-input", "case": r["case"].to_json(), "detail": d,
             "seed": seed, "tier": tier, "active_deviation_flags": sorted(quirks),
@@ -583,7 +616,7 @@ def run_check(prop, tier, seed, replay=None):
         if mism:
             what["case"] = mism[0]["case"].to_json()
         h = hashlib.sha1(json.dumps(what, sort_keys=True, default=str).encode()).hexdigest()[:10]
-        replay_path = os.path.join(VERIF, "replays", f"{pid}-{h}.json")
+        replay_path = os.path.join(OUT, "replays", f"{pid}-{h}.json")
         write_json(replay_path, what)
         status_lines.append(f"VIOLATION property={pid} replay={replay_path} no-failing-input-found")
 
